@@ -218,7 +218,9 @@ def judge_resp(sim, ev, rec):
             add(sim, rec, "SANITY", "non-response-accepted", m["type"])
         return
     try:
-        full, eff, undec, dec_used, stages = effective_view(xml, spec.get("enc_keys") or [])
+        # (the SP's configured key pairs, plus the private keys it holds for this very request when it sent a
+        # certificate of its own along with it)
+        full, eff, undec, dec_used, stages = effective_view(xml, list(spec.get("enc_keys") or []) + list(rec.get("req_keys") or []))
     except Exception as e:
         F["effective_error"] = type(e).__name__
         return
@@ -459,6 +461,9 @@ def documented_local_name(name):
         from saml2_tophat.attributemaps import saml_uri
         _NAME_MAP["to"] = {k.lower(): v for k, v in saml_uri.MAP["to"].items()}
         _NAME_MAP["fro"] = {k.lower(): v for k, v in saml_uri.MAP["fro"].items()}
+        # the home-grown attribute of fixtures/attributemaps_custom (only asserted in federations that use that map)
+        _NAME_MAP["to"]["staffid"] = "urn:example:verif:attr:staffId"
+        _NAME_MAP["fro"]["urn:example:verif:attr:staffid"] = "staffId"
     wire_name = _NAME_MAP["to"].get(name.lower())
     if wire_name is None:
         return None
@@ -664,9 +669,11 @@ def judge_answer(sim, ev, rec):
         # addressed to one of the SP's encryption certificates as the IdP knows them (or, for the PEFIM advice,
         # to the certificate that came with the request)
         adv_label = ("k%d" % p["enc_cert_advice"]) if p.get("enc_cert_advice") is not None and p.get("pefim") else None
+        # a certificate that came with the request is the SP's too, unless the operator's hook says otherwise
+        req_label = ("k%d" % p["enc_cert"]) if p.get("enc_cert") is not None and idp.spec.get("enc_hook_allow") is None else None
         enc_runs = [t for t in (rec.get("tool") or []) if t.get("op") == "encrypt" and t.get("healthy_ok")]
         for t in enc_runs:
-            if t.get("key") not in (enc_labels or []) + ([adv_label] if adv_label else []):
+            if t.get("key") not in (enc_labels or []) + ([adv_label] if adv_label else []) + ([req_label] if req_label else []):
                 add(sim, rec, "C17", "encrypted-for-foreign-key", "key=%s sp-enc-certs=%s" % (t.get("key"), enc_labels))
         if adv_label and enc_runs and not enc_faulted and adv_label not in [t.get("key") for t in enc_runs]:
             add(sim, rec, "C17", "advice-not-encrypted-for-requested-certificate",
